@@ -46,6 +46,27 @@ DOCS = [
     '<r %s><i k="1"/><note xmlns="urn:other" xsi:type="xs:string">x</note></r>' % XSI.replace('xmlns:xsi', 'xmlns:xs="http://www.w3.org/2001/XMLSchema" xmlns:xsi'),   # undeclared element with xsi:type under the lax wildcard
     '<r %s><i k="1"/><note xmlns="urn:other" xsi:nil="true"/></r>' % XSI,                                  # the same undeclared tag, nilled
 ]
+# Template 2: one global element referenced under two parents, each parent with its own key reaching content that exists
+# only through xsi:type (the selector widening recorded on the shared declaration must not depend on who came first).
+_XSD2 = """<xs:schema xmlns:xs="http://www.w3.org/2001/XMLSchema">
+ <xs:complexType name="T0"><xs:sequence/></xs:complexType>
+ <xs:complexType name="T1"><xs:complexContent><xs:extension base="T0"><xs:sequence>
+   <xs:element name="sub" minOccurs="0" maxOccurs="unbounded"><xs:complexType><xs:attribute name="a" type="xs:int"/></xs:complexType></xs:element>
+ </xs:sequence></xs:extension></xs:complexContent></xs:complexType>
+ <xs:element name="g" type="T0"/>
+ <xs:element name="r"><xs:complexType><xs:sequence>
+   <xs:element name="A" minOccurs="0"><xs:complexType><xs:sequence><xs:element ref="g" maxOccurs="unbounded"/></xs:sequence></xs:complexType>
+      <xs:key name="KA"><xs:selector xpath="g/sub"/><xs:field xpath="@a"/></xs:key></xs:element>
+   <xs:element name="B" minOccurs="0"><xs:complexType><xs:sequence><xs:element ref="g" maxOccurs="unbounded"/></xs:sequence></xs:complexType>
+      <xs:key name="KB"><xs:selector xpath="g/sub"/><xs:field xpath="@a"/></xs:key></xs:element>
+ </xs:sequence></xs:complexType></xs:element></xs:schema>"""
+DOCS2 = [
+    '<r %s><A><g xsi:type="T1"><sub a="1"/><sub a="1"/></g></A></r>' % XSI,          # duplicate under A
+    '<r %s><B><g xsi:type="T1"><sub a="1"/><sub a="1"/></g></B></r>' % XSI,          # duplicate under B
+    '<r %s><A><g xsi:type="T1"><sub a="1"/><sub a="2"/></g></A><B><g xsi:type="T1"><sub a="1"/><sub a="1"/></g></B></r>' % XSI,   # valid under A, duplicate under B
+    '<r %s><A><g/></A><B><g xsi:type="T1"><sub a="3"/></g></B></r>' % XSI,           # valid
+    '<r><A><g/></A></r>',                                                             # valid, no xsi:type
+]
 OPS = ["is_valid", "validate", "iter_errors", "decode-lax", "decode-strict", "to_objects", "iter_errors-partial", "encode"]
 
 
@@ -64,10 +85,10 @@ def _fresh():
         from crosshair.tracers import NoTracing, is_tracing
         if is_tracing():
             with NoTracing():
-                return cls(_XSD)
+                return cls(_XSD2 if CFG.get("tpl") == 2 else _XSD)
     except ImportError:
         pass
-    return cls(_XSD)
+    return cls(_XSD2 if CFG.get("tpl") == 2 else _XSD)
 
 
 def _run(schema, op, doc):
@@ -96,31 +117,62 @@ def _run(schema, op, doc):
         pass
 
 
+def _norm_reason(r):
+    # engine artefact (DESIGN 10): under the tracer str.format() renders a 1-tuple as "(7)" instead of "(7,)"
+    return (r or '').replace(',)', ')')
+
+
 def _probe(schema, doc):
-    errs = [(e.reason, e.path) for e in schema.iter_errors(doc)]
+    errs = [(_norm_reason(e.reason), e.path) for e in schema.iter_errors(doc)]
     data, derrs = schema.decode(doc, validation='lax')
-    return not errs, errs, data, [e.reason for e in derrs]
+    return not errs, errs, data, [_norm_reason(e.reason) for e in derrs]
+
+
+def _docs():
+    return DOCS2 if CFG.get("tpl") == 2 else DOCS
 
 
 def pre_hist(fn, **kw):
     for k, v in kw.items():
-        lim = len(OPS) if k[0] == 'o' else len(DOCS)
+        lim = len(OPS) if k[0] == 'o' else len(_docs())
         if not (0 <= v < lim):
             return False
     return True
 
 
+_REF = {}
+
+
+def _reference(pi):
+    """the result of a fresh, unused schema object for probe document #pi (the oracle side; computed once per process
+    outside the tracer, a fresh object each time)"""
+    key = (CFG["version"], CFG.get("tpl"), pi)
+    if key not in _REF:
+        try:
+            from crosshair.tracers import NoTracing, is_tracing
+            if is_tracing():
+                with NoTracing():
+                    _REF[key] = _probe(_fresh(), _docs()[pi])
+                return _REF[key]
+        except ImportError:
+            pass
+        _REF[key] = _probe(_fresh(), _docs()[pi])
+    return _REF[key]
+
+
 def h_history(**kw) -> bool:
-    work, ref = _fresh(), _fresh()
+    work = _fresh()
+    docs = _docs()
     for s in range(CFG["steps"]):
         op = OPS[pick(_a(kw, "o%d" % s), len(OPS))]
-        doc = DOCS[pick(_a(kw, "d%d" % s), len(DOCS))]
+        doc = docs[pick(_a(kw, "d%d" % s), len(docs))]
         _run(work, op, doc)
-    probe = DOCS[pick(kw["p"], len(DOCS))]
-    return _probe(work, probe) == _probe(ref, probe)
+    pi = pick(kw["p"], len(docs))
+    return _probe(work, docs[pi]) == _reference(pi)
 
 
 def explain(fn, args):
+    DOCS = _docs()
     hist = [(OPS[_a(args, "o%d" % s)], DOCS[_a(args, "d%d" % s)][:60]) for s in range(CFG["steps"])]
     work, ref = _fresh(), _fresh()
     for s in range(CFG["steps"]):
@@ -162,4 +214,9 @@ def obligations(tier, seed):
                             "args": [["d0", "int"], ["o1", "int"], ["d1", "int"], ["p", "int"]],
                             "config": {"version": version, "steps": 2, "fixed": {"o0": o0}}, "timeout": 3000, "twin_timeout": 40,
                             "bound": "histories of 2 steps (first op %s), %d ops x %d documents, every probe document" % (OPS[o0], len(OPS), len(DOCS))})
+        for o0 in ((0, 3) if quick else range(len(OPS))):
+            out.append({"name": "history-shared-ref/%s/first=%s" % (version, OPS[o0]), "fn": "h_history", "pre": "pre_hist",
+                        "args": [["d0", "int"], ["p", "int"]] if quick else [["d0", "int"], ["o1", "int"], ["d1", "int"], ["p", "int"]],
+                        "config": {"version": version, "steps": 1 if quick else 2, "fixed": {"o0": o0}, "tpl": 2}, "timeout": 600 if quick else 3000, "twin_timeout": 40,
+                        "bound": "template 2 (a global element referenced under two parents with their own keys into xsi:type'd content): histories of %d step(s) over %d documents, every probe" % (1 if quick else 2, len(DOCS2))})
     return out
